@@ -796,6 +796,11 @@ func (ctx Ctx) callExpr(s *ast.CallExpr) coq.Expr {
 			// the message is printed as a Coq string, which has no escapes
 			ctx.unsupported(s, "panic message with quotes")
 		}
+		if strings.ContainsAny(msg, "\n\r") {
+			// the printer indents every line it prints, also the lines of
+			// a message
+			ctx.unsupported(s, "panic message with a line break")
+		}
 		return coq.NewCallExpr(coq.GallinaIdent("Panic"), coq.GallinaString(msg))
 	}
 	// Special case for *sync.NewCond
